@@ -313,7 +313,7 @@ package pod
   ensures (and (not (= result vnil)) (= (|F!types/pod.filterSubscription!filterParent| result) {parent}))
 @*/
 /*@ func types/pod.BuildController
-  props C20
+  props C20 C11
   theory podtyped
   ghost perr : V := vnil
   at call(NewController) assert [an-untyped-controller-on-the-same-context-log-and-client] (and (= $0 {ctx}) (= $1 {log}) (= $2 {client}))
